@@ -66,6 +66,19 @@ def monitor(state, op, o):
         return "buffer-lost-or-reordered"
     delivered = pend_a[len(pend_b):]
     composing_b = prev.get("composing") == "1"
+    # (e) exactly once, at the level of the raw letters: a plain key adds at most its own character; a lower-case letter of the
+    # input is afterwards either still composed or has been delivered as it was typed, never both (evaluated when no
+    # candidate text of the table contains a lower-case ASCII letter, so that a delivered letter is a raw one)
+    if w[0] == "key" and len(w) == 3 and w[2] == "0" and "texts" in state:
+        if "letters_ok" not in state:
+            state["letters_ok"] = not any(("a" <= ch <= "z") for t in state["texts"] for ch in t)
+        if state["letters_ok"]:
+            cnt = lambda b: {x: b.count(x) for x in set(b) if 97 <= x <= 122}
+            have = cnt(sc.unhex(prev.get("input")) + (bytes([int(w[1])]) if 97 <= int(w[1]) <= 122 else b""))
+            now = cnt(delivered + sc.unhex(o.get("input")))
+            state["letter_accounts"] = state.get("letter_accounts", 0) + 1
+            if any(n > have.get(x, 0) for x, n in now.items()):
+                return "letter-delivered-and-still-composed"
     # (a) commit = preview
     if w[0] == "commit":
         if composing_b:
